@@ -134,6 +134,8 @@ func (s *scte35) parseTable(data []byte) error {
 			s.commandInfo = cmd
 		case SpliceNull:
 			s.commandInfo = &spliceNull{}
+			// keep pts_adjustment so that it survives re-encoding (the command PTS is 0)
+			s.pts = ptsAdjustment
 		default:
 			return gots.ErrSCTE35UnsupportedSpliceCommand
 		}
